@@ -122,6 +122,14 @@ class Selection(RowFilter):
                 done=False,
                 messages=(f"{current.operation} is count-dependent",),
             )
+        if current.operation.is_order_dependent:
+            # Removing rows changes which rows precede or follow each other.
+            return UnaryCommutator(
+                first=None,
+                second=current.operation,
+                done=False,
+                messages=(f"{current.operation} is order-dependent",),
+            )
         return UnaryCommutator(self, current.operation)
 
     def simplify(self, upstream: UnaryOperation) -> UnaryOperation | None:
